@@ -187,8 +187,8 @@ def handleCacheHit (cfg : Cfg) (t0 : Int) (req : Req) (stored : Entry) (key : St
   else
     match ccResp.staleWhileRevalidate with
     | some swr =>
-      let staleFor := satAdd f.ageValue (satSub t0 f.ageTimestamp) - f.usefulLife
-      if f.isStale && staleFor ≥ 0 && staleFor < swr then
+      let age := satAdd f.ageValue (satSub t0 f.ageTimestamp)
+      if f.isStale && age ≥ f.usefulLife && age < satAdd f.usefulLife swr then
         let condH := withConditional req.header stored.resp.header
         Prog.spawn (backgroundRevalidate cfg req.method condH key stored f ccReq t0)
           (.ret (.resp (respWith stored.resp
